@@ -95,7 +95,6 @@ def mkGroup (numvar : Nat) : GroupSpec → Except Err Group
   | .binaryMapping n m label => do
     let fmt := label.getD "v({},{})"
     if n < 0 ∨ m < 0 then throw Err.valueError
-    if m < 1 ∨ n < 1 then throw Err.valueError
     pure (.binary (numvar + 1) n.toNat m.toNat fmt)     -- the label is not checked here
 
 /-! ### the state machine -/
